@@ -108,6 +108,9 @@ theorem extends_cycle_err (fs : Ext.FS) (main : String) (svcs : Ext.Services) (n
 /-- non-vacuity: a service extending itself is such a chain … -/
 example : Ext.Forever [] "m" ([("a", .ext (.str "a"))], "a") :=
   Ext.forever_of_fixpoint (by decide)
+/-- … so is a ring of two services (period 2), in the same file or across files … -/
+example : Ext.Forever [] "m" ([("a", .ext (.str "b")), ("b", .ext (.map (.str "a") .absent))], "a") :=
+  Ext.forever_of_period 2 (by decide) (by decide)
 /-- … and a two-file ring is reported (evaluated) -/
 example : (Ext.resolve [("o.yml", .services [("b", .ext (.map (.str "a") (.str "m.yml")))]),
                         ("m.yml", .services [("a", .ext (.map (.str "b") (.str "o.yml")))])]
